@@ -48,6 +48,22 @@ const DEFAULT_SYMBOLS: [&str; 28] = [
 
 const OFFSET: usize = 1024;
 
+/// writes a string as a Datalog string literal body: `"` and `\` are escaped
+/// (and newlines written as `\n`) so that the printed text parses back to the
+/// same string and cannot be read as anything else
+pub(crate) fn escape_string(s: &str) -> String {
+    let mut out = String::with_capacity(s.len());
+    for c in s.chars() {
+        match c {
+            '"' => out.push_str("\\\""),
+            '\\' => out.push_str("\\\\"),
+            '\n' => out.push_str("\\n"),
+            c => out.push(c),
+        }
+    }
+    out
+}
+
 impl SymbolTable {
     pub fn new() -> Self {
         SymbolTable {
@@ -184,7 +200,10 @@ impl SymbolTable {
         match term {
             Term::Variable(i) => format!("${}", self.print_symbol_default(*i as u64)),
             Term::Integer(i) => i.to_string(),
-            Term::Str(index) => format!("\"{}\"", self.print_symbol_default(*index)),
+            Term::Str(index) => format!(
+                "\"{}\"",
+                escape_string(&self.print_symbol_default(*index))
+            ),
             Term::Date(d) => OffsetDateTime::from_unix_timestamp(*d as i64)
                 .ok()
                 .and_then(|t| t.format(&Rfc3339).ok())
@@ -226,7 +245,7 @@ impl SymbolTable {
                         crate::datalog::MapKey::Str(s) => {
                             format!(
                                 "\"{}\": {}",
-                                self.print_symbol_default(*s as u64),
+                                escape_string(&self.print_symbol_default(*s as u64)),
                                 self.print_term(term)
                             )
                         }
